@@ -29,7 +29,7 @@ BOUNDS = {
     'quick': 'every history of <= 4 operations drawn from 6 kinds over 2 abstract molecules and 3 library objects, followed by '
              'four probes (estimate from an EARLIER decomposition incl. the elemental reference, a new decomposition, library '
              'contents, a freshly default-constructed scheme)',
-    'thorough': 'histories of <= 6 operations',
+    'thorough': 'histories of <= 5 operations',
 }
 STUBS = ['fake Chem in Scheme.py and group_data.py (molecules are named atom lists); patterns with a fixed match function']
 ASSUMPTIONS = ['expected results are computed analytically from the construction (not from "fresh" objects, which would share '
@@ -164,7 +164,7 @@ def signature(ob, param, ret):
 def obligations(tier, seed):
     q = tier == 'quick'
     to = 200 if q else 3000
-    k = 4 if q else 6
+    k = 4 if q else 5
     obs = []
     for o0 in range(len(OPS)):
         obs.append(dict(name='history_k%d_first%d' % (k, o0), func='h_history', param=dict(k=k, fix=dict(op0=o0)), timeout=to))
